@@ -3,6 +3,7 @@
 use vh::report::*;
 
 mod c02;
+mod c03;
 mod c05;
 mod c09;
 mod c13;
@@ -12,7 +13,9 @@ mod util;
 
 fn main() {
     let cli = Cli::parse();
-    std::panic::set_hook(Box::new(|_| {}));
+    if std::env::var("VH_PANIC").is_err() {
+        std::panic::set_hook(Box::new(|_| {}));
+    }
     if !vh::det::selftest() {
         machinery_error("hash-seed override (getrandom) is not in effect");
     }
@@ -20,6 +23,7 @@ fn main() {
     let (level, (cov, viol)) = match cli.prop.as_str() {
         "C02" => ("model_checking", c02::run(&cli, "C02")),
         "C14" => ("model_checking", c02::run(&cli, "C14")),
+        "C03" => ("exploration", c03::run(&cli)),
         "C13" => ("fault_enumeration", c13::run(&cli)),
         "C19" => ("model_checking", c19::run(&cli)),
         "C05" => ("model_checking", c05::run(&cli)),
